@@ -173,6 +173,24 @@ func parseOracle(s *GSpec, w []int, out string) string {
 	return ""
 }
 
+// boundsProjection keeps of a run's output what does not depend on the values actions return:
+// the verdict, the order of action calls, and the two token indices of every _onBounds call.
+func boundsProjection(out string) string {
+	parts := strings.Split(out, " ; ")
+	for i, e := range parts {
+		switch {
+		case strings.HasPrefix(e, "A "):
+			parts[i] = "A"
+		case strings.HasPrefix(e, "B "):
+			f := strings.Fields(e)
+			if len(f) >= 3 {
+				parts[i] = "B " + f[len(f)-2] + " " + f[len(f)-1]
+			}
+		}
+	}
+	return strings.Join(parts, ";")
+}
+
 func genInputs(r *Rng, s *GSpec, tier string, withErrors bool) [][]int {
 	var ins [][]int
 	seen := map[string]bool{}
@@ -348,6 +366,30 @@ func init() {
 		for _, cs := range cases {
 			names = append(names, cs.pkg.Name)
 		}
+		// twins for C16: the same grammar with _onBounds, where Node is an interface type and some actions of
+		// non-empty productions return nil; the _onBounds calls must not depend on the values (erasure)
+		twins := map[string]string{}
+		{
+			var tn, tl, tg []string
+			for _, cs := range cases {
+				if cs.spec.WithBounds && !hasStarF(cs.spec) {
+					t := *cs.spec
+					t.NilTwin = true
+					tn = append(tn, cs.pkg.Name+"n")
+					tl = append(tl, t.Lox())
+					tg = append(tg, t.GoSource(cs.pkg.Name+"n"))
+				}
+			}
+			for i, p := range GenerateAll(root, tn, tl, tg, false) {
+				if p.OK {
+					twins[strings.TrimSuffix(tn[i], "n")] = tn[i]
+					names = append(names, tn[i])
+					c.Count("nil-twins")
+				} else {
+					c.EmitO("# nil twin of "+tn[i], "rejected", "C06,C16: the grammar is accepted with struct-typed rules but not with interface-typed rules: "+strings.ReplaceAll(strings.TrimSpace(p.Diag+p.Panic), "\n", " ⏎ "))
+				}
+			}
+		}
 		bin, err := BuildMux(root, names)
 		if err != nil {
 			// generated code does not compile: that is itself an observation (C06/C12)
@@ -400,6 +442,21 @@ func init() {
 				reqs = append(reqs, fmt.Sprintf("%s %d %s", p.Name, budget, joinInts(ty)))
 			}
 			outs := RunMux(bin, reqs)
+			if tw := twins[p.Name]; tw != "" {
+				var treqs []string
+				for _, rq := range reqs {
+					treqs = append(treqs, tw+strings.TrimPrefix(rq, p.Name))
+				}
+				touts := RunMux(bin, treqs)
+				for i := range ins {
+					if a, b := boundsProjection(outs[i]), boundsProjection(touts[i]); a != b {
+						c.EmitO(fmt.Sprintf("# nil twin %s input %v", tw, ins[i]), "differs",
+							"C16: the _onBounds calls change when actions return nil interface values: with values `"+a+"`, with nil results `"+b+"` | grammar: "+
+								strings.ReplaceAll(strings.TrimSpace(p.Lox), "\n", " ⏎ ")+" | input: "+fmt.Sprint(ins[i]))
+					}
+					c.Count("nil-twin-runs")
+				}
+			}
 			wb := 0
 			if s.WithBounds {
 				wb = 1
